@@ -20,9 +20,18 @@ namespace {
 struct NamePool
 {
   char store[C20_NAMES][64];
-  const char *ptr[C20_NAMES];
+  const char *ptr[C20_NAMES + C20_HUGE_NAMES];
+  char *huge[C20_HUGE_NAMES];
   NamePool()
   {
+    static const size_t hl[C20_HUGE_NAMES] = {40000, 65000, 100000};
+    for (int h = 0; h < C20_HUGE_NAMES; h++) {
+      huge[h] = (char *)malloc(hl[h] + 1);
+      for (size_t k = 0; k < hl[h]; k++)
+        huge[h][k] = (char)('a' + (k * 7 + (size_t)h) % 26);
+      huge[h][hl[h]] = 0;
+      ptr[C20_NAMES + h] = huge[h];
+    }
     static const char *first[] = {"render", "frame", "commit", "x"};
     for (int i = 0; i < C20_NAMES; i++) {
       if (i < 4)
@@ -309,6 +318,7 @@ void tplan_common(int tier, int global)
   tplan.process_name = (int)sim_plan(3) != 0;
   sim_set_clock_jumps((int)sim_plan(2));
   tplan.many_names = sim_plan(4) == 0;
+  tplan.huge_names = !tplan.many_names && sim_plan(16) == 0;
   tplan.extra_save = sim_plan(5) == 0 ? 1 + (int)sim_plan(2) : 0;
   for (int t = 0; t < tplan.nthreads; t++) {
     tplan.named[t] = 1;
@@ -316,6 +326,8 @@ void tplan_common(int tier, int global)
     tplan.bulk[t] = 0;
     if (tplan.many_names && b != 0 && sim_plan(2))
       tplan.bulk[t] = 20 + (int)sim_plan(120);
+    if (tplan.huge_names)
+      tplan.bulk[t] = (int)sim_plan(48);  // with the scripted events: up to several megabytes of log text
     if (b == 0)
       tplan.bulk[t] = tplan.chunk <= 8 ? (int)tplan.chunk - 1 + (int)sim_plan(3) : (tier && sim_plan(6) == 0 ? 8190 + (int)sim_plan(4) : 0);
     unsigned n = sim_plan(6);
@@ -326,7 +338,7 @@ void tplan_common(int tier, int global)
       C20TOp &op = tplan.ops[t][i];
       static const uint8_t kinds[] = {C20_BEGIN, C20_BEGIN, C20_END, C20_END, C20_MARKER, C20_COUNTER};
       op.kind = kinds[sim_plan(6)];
-      op.name = (uint8_t)(tplan.many_names ? 4 + sim_plan(C20_NAMES - 4) : sim_plan(4));
+      op.name = (uint8_t)(tplan.huge_names ? C20_NAMES + sim_plan(C20_HUGE_NAMES) : (tplan.many_names ? 4 + sim_plan(C20_NAMES - 4) : sim_plan(4)));
       op.cat = (uint8_t)sim_plan(3);
       op.value = sim_plan(3) == 0 ? 0xffffffffu - sim_plan(5) : sim_plan(100000);
     }
@@ -507,9 +519,9 @@ int stuck(int deadlock, char *cls, size_t n)
 
 void tdescribe(char *buf, size_t n)
 {
-  int k = snprintf(buf, n, "{\"api\": \"%s\", \"chunk\": %u, \"threads\": %d, \"process_name\": %d, \"thread0_records\": %d, \"one_after_another\": %d, \"names_from_pool_of_200\": %d, \"extra_saves\": %d, \"events_per_thread\": [",
+  int k = snprintf(buf, n, "{\"api\": \"%s\", \"chunk\": %u, \"threads\": %d, \"process_name\": %d, \"thread0_records\": %d, \"one_after_another\": %d, \"names_from_pool_of_200\": %d, \"extra_saves\": %d, \"names_of_40000_to_100000_characters\": %d, \"events_per_thread\": [",
                    tplan.global_api ? "free functions (global recorder)" : "private TraceRecorder", tplan.chunk, tplan.nthreads, tplan.process_name,
-                   tplan.t0_records, tplan.sequential, tplan.many_names, tplan.extra_save);
+                   tplan.t0_records, tplan.sequential, tplan.many_names, tplan.extra_save, tplan.huge_names);
   for (int t = 0; t < tplan.nthreads; t++)
     k += snprintf(buf + k, n - k, "%s\"%d bulk + %d scripted\"", t ? "," : "", tplan.bulk[t], tplan.nops[t]);
   snprintf(buf + k, n - k, "]}");
@@ -673,7 +685,7 @@ SimRegistrar ireg(&iscen);
 
 extern "C" {
 const C20TPlan *c20t_plan() { return &tplan; }
-const char *c20_name(int i) { return NAMES[i % C20_NAMES]; }
+const char *c20_name(int i) { return NAMES[i % (C20_NAMES + C20_HUGE_NAMES)]; }
 const char *c20_cat(int i) { return CATS[i % 3]; }
 const char *c20_path() { return g_path; }
 void c20t_thread_begin(int slot, int named, unsigned long long key)
